@@ -128,6 +128,8 @@ def run_views(case):
         cl.append("non_entries")
         if any(0 < g[1] - g[0] <= 1e-8 for g in want):
             cl.append("tiny_gap")
+        if any(0 < g[1] - g[0] <= 1e-14 * g[1] for g in want):
+            cl.append("gap_of_one_ulp")
         if any(x[1] == y[0] for x, y in zip(ents, ents[1:])):
             cl.append("touching_entries")
     return {"classes": cl, "nontrivial": bool(cl)}
@@ -142,7 +144,8 @@ def tiny_gap_tier(draw):
     for i in range(n):
         e = t + draw(st.sampled_from([0.25, 0.5, 1.0]))
         ents.append([t, e, "ab"[i % 2]])
-        t = e + draw(st.sampled_from([0.0, 5e-9, 2e-9, 0.25]))
+        g = draw(st.sampled_from([0.0, 5e-9, 2e-9, 0.25, "ulp", "ulp"]))
+        t = math.nextafter(e, math.inf) if g == "ulp" else e + g  # "ulp": the next interval starts one unit in the last place later
     maxT = ents[-1][1] + draw(st.sampled_from([0.0, 2e-9, 1.0]))
     return {"type": "interval", "name": "t", "entries": ents, "minT": 0.0, "maxT": maxT, "style": "dec"}
 
